@@ -531,7 +531,7 @@ JOBS = {
     "conf_kb2_bytes": dict(kind="tlc", module="Conf_Set2", cfg="Conf_Set2.cfg",
                            env={"GRAPH": "art:g_kb2_bytes", "COMP": "kb2"}),
     "conf_words": dict(kind="tlc", module="Conf_Words", cfg="Conf_Words.cfg",
-                       env={"WORDS": "art:t_words", "GRAPH2": "art:g_set2"}),
+                       env={"WORDS": "art:t_words", "GRAPH2": "art:g_kb2_bytes"}),
     "conf_layouts": dict(kind="tlc", module="Conf_Layouts", cfg="Conf_Layouts.cfg", workers=8, heap="8g",
                          env={"TABLE": "art:t_layouts", "SOURCE": "impl"}, timeout=1200),
     "conf_preds": dict(kind="tlc", module="Conf_Preds", cfg="Conf_Preds.cfg", workers=1,
